@@ -49,10 +49,12 @@ def write_bag(path, topics, u, clock):
     from evo.tools import file_interface as fi
     from rosbags.rosbag1 import Writer
     with Writer(path) as wr:
-        for topic, T in topics:
+        for item in topics:
+            topic, T = item[0], item[1]
+            tclock = item[2] if len(item) > 2 else clock
             pos = np.array([[u * v for v in p["p"]] for p in T["poses"]], dtype=float)
             quat = np.array([np.roll(_quat_xyzw(p["r"]), 1) for p in T["poses"]], dtype=float)
-            st = np.array([float(clock.g(s_)) for s_ in T["stamps"]])
+            st = np.array([float(tclock.g(s_)) for s_ in T["stamps"]])
             fi.write_bag_trajectory(wr, PoseTrajectory3D(positions_xyz=pos, orientations_quat_wxyz=quat, timestamps=st), topic, frame_id="map")
 
 
@@ -95,14 +97,18 @@ def execute(job):
         if bag:
             clock = [geom.Clock(1.5e9, 0.125), geom.Clock(4096, 0.5)][(n + seed) % 2]            # ROS times are not negative (some stamps of the cases are)
         ext = {"tum": ".txt", "euroc": ".csv", "kitti": ".kitti.txt", "bag": ""}[c["fmt"]]
+        # every other TUM / bag case: the estimates' stamps are a quarter tick later than the reference's, and --t_max_diff is exactly
+        # that quarter tick (a difference equal to max_diff still associates)
+        eclock = geom.Clock(clock.t0 + 0.25 * clock.dt, clock.dt) if c["fmt"] in ("tum", "bag") and (n // 5) % 2 else clock
         names = []
         for k, T in enumerate(c["trajs"]):
             nm = "est%d%s" % (k, ext)
             if not bag:
-                write_input(os.path.join(d, nm), T, c["fmt"], u, clock)
+                write_input(os.path.join(d, nm), T, c["fmt"], u, eclock)
             names.append(nm)
         if bag:
-            write_bag(os.path.join(d, "in.bag"), [("/" + nm, T) for nm, T in zip(names, c["trajs"])] + ([("/gt", c["ref"])] if c["useref"] else []), u, clock)
+            with_ref = [("/gt", c["ref"], clock)] if c["useref"] else []
+            write_bag(os.path.join(d, "in.bag"), [("/" + nm, T, eclock) for nm, T in zip(names, c["trajs"])] + with_ref, u, clock)
             argv = ["bag", "in.bag"] + ["/" + nm for nm in names]
             if c["useref"]:
                 argv += ["--ref", "/gt"]
@@ -158,7 +164,7 @@ def execute(job):
             p = os.path.join(d, st + suffix)
             if not os.path.exists(p):
                 return {"out": "missing export " + st + suffix, "est": [], "ref": [], "argv": argv}
-            est.append(parse_export(p, c["export"], u, clock, q["plane"], 1e-6 if c["fmt"] == "euroc" else 0.0))
+            est.append(parse_export(p, c["export"], u, eclock, q["plane"], 1e-6 if c["fmt"] == "euroc" else 0.0))
         ref = []
         if c["useref"]:
             stem = "gt" if c["fmt"] != "kitti" else "gt.kitti"
